@@ -127,33 +127,84 @@ def run_check(modname: str, tier: str, seed: int, replay_path: str | None = None
                 for payload, r in res:
                     col.add(payload, r)
 
-        for spec in pm.models(tier, seed):
-            spec = dict(spec)
-            batch_size = spec.pop('batch', 200)
-            tags = spec.pop('tags', ('CASE',))
-            run = TLCRun(**spec)
-            batch = []
-            for tag, payload in run.lines(tags=tags):
+        import threading, queue as _queue
+
+        def consume(batch):
+            fresh = []
+            for payload in batch:
                 h = hashlib.blake2b(payload.encode() if isinstance(payload, str) else repr(payload).encode(), digest_size=8).digest()
                 if h in col.seen:
                     continue
                 col.seen.add(h)
                 if len(first_payloads) < 3:
                     first_payloads.append(payload)
-                batch.append(payload)
-                if len(batch) >= batch_size:
-                    pending.append(pool.apply_async(_work, (batch,)))
-                    batch = []
-                    drain(4 * nworkers)
-            if batch:
-                pending.append(pool.apply_async(_work, (batch,)))
+                fresh.append(payload)
+            if fresh:
+                pending.append(pool.apply_async(_work, (fresh,)))
+                drain(4 * nworkers)
+
+        def finish(run, spec):
+            nonlocal states, distinct
             run.require_ok()
             if run.cut and run.distinct == 0:      # a simulation that was cut after max_cases prints no totals: every emitted scenario is a state TLC checked
                 run.states = run.distinct = run.emitted
             states += run.states
             distinct += run.distinct
-            tlc_runs.append({'module': spec['module'], 'cfg': spec['cfg'], 'simulate': spec.get('simulate'), 'states_generated': run.states,
+            tlc_runs.append({'module': spec['module'], 'cfg': spec['cfg'], 'simulate': spec.get('simulate'), 'seed': spec.get('seed'), 'states_generated': run.states,
                              'distinct_states': run.distinct, 'cut_after_max_cases': run.cut, 'cmd': ' '.join(run.cmd[-8:])})
+
+        for spec in pm.models(tier, seed):
+            spec = dict(spec)
+            batch_size = spec.pop('batch', 200)
+            tags = spec.pop('tags', ('CASE',))
+            shards = spec.pop('shards', 1)
+            if shards <= 1:
+                run = TLCRun(**spec)
+                batch = []
+                for tag, payload in run.lines(tags=tags):
+                    batch.append(payload)
+                    if len(batch) >= batch_size:
+                        consume(batch)
+                        batch = []
+                if batch:
+                    consume(batch)
+                finish(run, spec)
+                continue
+            # a randomised simulation: several single-worker TLC processes with different seeds (TLC's RandomElement is seeded per process)
+            q = _queue.Queue(maxsize=256)
+            per = (spec.get('max_cases') or 0) // shards + 1
+            runs = []
+            for k in range(shards):
+                sp = dict(spec, workers=1, seed=(spec.get('seed') or 0) + 7919 * k, max_cases=per, heap='1g')
+                run = TLCRun(**sp)
+                runs.append((run, sp))
+
+                def reader(run=run):
+                    try:
+                        b = []
+                        for tag, payload in run.lines(tags=tags):
+                            b.append(payload)
+                            if len(b) >= batch_size:
+                                q.put(b)
+                                b = []
+                        if b:
+                            q.put(b)
+                    except Exception as ex:     # noqa
+                        q.put(ex)
+                    finally:
+                        q.put(None)
+                threading.Thread(target=reader, daemon=True).start()
+            live = shards
+            while live:
+                item = q.get()
+                if item is None:
+                    live -= 1
+                elif isinstance(item, Exception):
+                    raise item
+                else:
+                    consume(item)
+            for run, sp in runs:
+                finish(run, sp)
         drain(0)
         if os.environ.get('VERIF_DEBUG'):
             print(f'[debug] models + replay done at {time.time() - t0:.1f}s', file=sys.stderr)
